@@ -117,6 +117,7 @@ package main
 // ---- dev server reload (C19) -------------------------------------------------------------
 // "A server is listening" is an invariant of the reload manager: m.server, when set, is running.
 //@ ghost running(srv *http.Server) bool
+//@ ghost nprep() int
 //@ monitor hotReloadManager.mu guards server invariant self.server != nil ==> running(self.server)
 
 // Summaries of the two effectful halves (read here, exercised by the replay tests):
@@ -134,8 +135,10 @@ package main
 //@   requires m != nil
 //@   unknowncalls like dyncall
 //@   dyncall modifies nothing
-//@   modifies global(compiledTypeDefs)
+//@   modifies global(compiledTypeDefs), ghost(nprep)
 //@   summary err == nil ==> result != nil && fresh(result) && !running(result)
+// (definition of the ghost counter: the number of times the source file has been read and set up)
+//@   summary nprep() == old(nprep()) + 1
 //@   ensures err != nil ==> result == nil
 //@   ensures err != nil ==> compiledTypeDefs == old(compiledTypeDefs)
 //@ func (*hotReloadManager).launchDevServer
@@ -150,8 +153,18 @@ package main
 //@   requires m != nil
 //@   strict
 //@   dyncall modifies nothing
-//@   ensures result != nil ==> m.server == atlock(m.server) && (m.server != nil ==> running(m.server))
+//@   check result != nil ==> m.server == atlock(m.server) && (m.server != nil ==> running(m.server))
 //@   ensures result == nil ==> m.server != nil && running(m.server) && fresh(m.server)
+// every start request reads the source as it is now, once
+//@   ensures nprep() == old(nprep()) + 1
+
+// a reload request is never dropped: it reads the file as it is at that moment (a request that arrives
+// while another reload is running waits for it on the manager's lock and then reads the newer text)
+//@ func (*hotReloadManager).reload
+//@   requires m != nil
+//@   unknowncalls like dyncall
+//@   dyncall modifies nothing
+//@   ensures nprep() == old(nprep()) + 1
 
 // ---- compiled request handler (C04, C08) -----------------------------------------------
 // every request gets a fresh VM, and that VM runs with a step limit
